@@ -620,3 +620,44 @@ pub proof fn lemma_sc_call(w: World, w2: World, op: ScOp)
         assert(w2 == sc_post(w, op));
     }
 }
+
+// =================================================================================================
+// 5. OBSERVATION (not an entry point of the FungibleVault trait, but a public path of the library):
+//    `Vault::deposit_internal` / `Vault::withdraw_internal` are `pub`, their doc comments promise "... and emitting
+//    events" with an `# Events` section (deposit / withdraw), yet their bodies publish NOTHING: only the four
+//    high-level functions call emit_deposit / emit_withdraw.  A custom workflow that calls them directly (the
+//    module documentation invites that: "low-level functions ... for custom workflows") and trusts the docs mints /
+//    burns shares that no Deposit / Withdraw / Mint / Burn / Transfer event accounts for: Σ balances == supply still
+//    holds, the replay clause of C01 does not.  The two lemmas below state that precisely over the exact contracts
+//    `deposit_internal.pulls_assets_then_mints_to_receiver` / `withdraw_internal.burns_from_owner_then_pays_receiver`.
+// =================================================================================================
+pub proof fn lemma_sc_deposit_internal_is_silent(w: World, wf: World, receiver: Address, assets: i128, shares: i128, from: Address, operator: Address)
+    requires inv(w), inv_ev_vault(w), deposit_internal_guard(w, receiver, shares), shares > 0,
+    ensures ({
+        let w2 = deposit_internal_post(w, wf, receiver, assets, shares, from, operator);
+        //@@ C01:vault.observation.deposit_internal_mints_without_any_event
+        &&& inv(w2) && w2.events == w.events && bal(w2, receiver) == bal(w, receiver) + shares && supply(w2) == supply(w) + shares
+        &&& !inv_ev_vault(w2)
+    }),
+{
+    let wx = xcall_w(w, wf, asset_in_call(w, assets, from, operator));
+    let w2 = deposit_internal_post(w, wf, receiver, assets, shares, from, operator);
+    lemma_sc_frame(w, wx);
+    lemma_update_inv(wx, None, Some(receiver), shares as int);
+    assert(bal(wx, receiver) == bal(w, receiver));
+    assert(vreplay_bal(w2.events, receiver) == bal(w, receiver));
+}
+pub proof fn lemma_sc_withdraw_internal_is_silent(w: World, wf: World, receiver: Address, owner: Address, assets: i128, shares: i128, operator: Address)
+    requires inv(w), inv_ev_vault(w), withdraw_internal_guard(w, owner, shares, operator), shares > 0,
+    ensures ({
+        let w2 = withdraw_internal_post(w, wf, receiver, owner, assets, shares, operator);
+        //@@ C01:vault.observation.withdraw_internal_burns_without_any_event
+        &&& inv(w2) && w2.events == w.events && bal(w2, owner) == bal(w, owner) - shares && supply(w2) == supply(w) - shares
+        &&& !inv_ev_vault(w2)
+    }),
+{
+    let w2 = withdraw_internal_post(w, wf, receiver, owner, assets, shares, operator);
+    lemma_sc_exit_internal(w, wf, receiver, owner, assets, shares, operator);
+    assert(bal(w2, owner) == bal(w, owner) - (if owner == owner { shares as int } else { 0 }));
+    assert(vreplay_bal(w2.events, owner) == bal(w, owner));
+}
